@@ -1,0 +1,107 @@
+//go:build verif
+
+// Verification hook (add-only, compiled only with -tags verif): bridge that lets the /verif
+// harness observe the resource map just before and just after FixBackReferences, drive the
+// name reference transformer on a state of its own, and read the default rule table.
+// Nothing here changes behaviour.
+package krusty
+
+import (
+	"sigs.k8s.io/kustomize/api/internal/accumulator"
+	"sigs.k8s.io/kustomize/api/internal/builtins"
+	fLdr "sigs.k8s.io/kustomize/api/internal/loader"
+	pLdr "sigs.k8s.io/kustomize/api/internal/plugins/loader"
+	"sigs.k8s.io/kustomize/api/internal/plugins/builtinconfig"
+	"sigs.k8s.io/kustomize/api/internal/target"
+	"sigs.k8s.io/kustomize/api/resmap"
+	"sigs.k8s.io/kustomize/api/types"
+	"sigs.k8s.io/kustomize/kyaml/filesys"
+	"sigs.k8s.io/kustomize/kyaml/openapi"
+)
+
+// VerifC03Rule is one row of the name reference table (builtinconfig.NameBackReferences).
+type VerifC03Rule struct {
+	Group, Version, Kind string
+	Referrers            []types.FieldSpec
+}
+
+// VerifC03Stages: the states of one build around FixBackReferences.
+type VerifC03Stages struct {
+	Acc, Pre, Post resmap.ResMap
+	Rules          []VerifC03Rule
+	Stage          string
+}
+
+func verifC03Rules(in []builtinconfig.NameBackReferences) []VerifC03Rule {
+	out := make([]VerifC03Rule, 0, len(in))
+	for _, r := range in {
+		out = append(out, VerifC03Rule{Group: r.Group, Version: r.Version, Kind: r.Kind,
+			Referrers: append([]types.FieldSpec{}, r.Referrers...)})
+	}
+	return out
+}
+
+func verifC03BackRefs(in []VerifC03Rule) []builtinconfig.NameBackReferences {
+	out := make([]builtinconfig.NameBackReferences, 0, len(in))
+	for _, r := range in {
+		n := builtinconfig.NameBackReferences{Referrers: append(types.FsSlice{}, r.Referrers...)}
+		n.Group, n.Version, n.Kind = r.Group, r.Version, r.Kind
+		out = append(out, n)
+	}
+	return out
+}
+
+// VerifC03DefaultRules is the name reference part of builtinconfig.MakeDefaultConfig(), as parsed
+// (source order, before any merge/sort).
+func VerifC03DefaultRules() []VerifC03Rule {
+	return verifC03Rules(builtinconfig.MakeDefaultConfig().NameReference)
+}
+
+// VerifC03MergedDefaultRules is what an accumulator holds after merging the default config once.
+func VerifC03MergedDefaultRules() ([]VerifC03Rule, error) {
+	ra := accumulator.MakeEmptyAccumulator()
+	if err := ra.MergeConfig(builtinconfig.MakeDefaultConfig()); err != nil {
+		return nil, err
+	}
+	return verifC03Rules(ra.VerifC03BackRefs()), nil
+}
+
+// VerifC03FixBackReferences runs the name reference transformer with the given rules on m (in place).
+func VerifC03FixBackReferences(m resmap.ResMap, rules []VerifC03Rule) error {
+	return accumulator.VerifC03NameRefTransformer(verifC03BackRefs(rules)).Transform(m)
+}
+
+// VerifC03HashTransform runs the HashTransformer on m (in place) with the kustomizer's hasher.
+func (b *Kustomizer) VerifC03HashTransform(m resmap.ResMap) error {
+	p := builtins.NewHashTransformerPlugin()
+	rf := resmap.NewFactory(b.depProvider.GetResourceFactory())
+	if err := p.Config(resmap.NewPluginHelpers(nil, b.depProvider.GetFieldValidator(), rf, nil), nil); err != nil {
+		return err
+	}
+	return p.Transform(m)
+}
+
+// VerifC03RunStages is Run up to FixBackReferences, with snapshots (see target.VerifC03RunStages).
+func (b *Kustomizer) VerifC03RunStages(fSys filesys.FileSystem, path string) (*VerifC03Stages, error) {
+	resmapFactory := resmap.NewFactory(b.depProvider.GetResourceFactory())
+	lr := fLdr.RestrictionNone
+	if b.options.LoadRestrictions == types.LoadRestrictionsRootOnly {
+		lr = fLdr.RestrictionRootOnly
+	}
+	ldr, err := fLdr.NewLoader(lr, path, fSys)
+	if err != nil {
+		return &VerifC03Stages{Stage: "load"}, err
+	}
+	defer ldr.Cleanup()
+	kt := target.NewKustTarget(ldr, b.depProvider.GetFieldValidator(), resmapFactory,
+		pLdr.NewLoader(b.options.PluginConfig, resmapFactory, filesys.MakeFsOnDisk()))
+	if err = kt.Load(); err != nil {
+		return &VerifC03Stages{Stage: "load"}, err
+	}
+	if err = openapi.SetSchema(kt.Kustomization().OpenAPI, nil, true); err != nil {
+		return &VerifC03Stages{Stage: "load"}, err
+	}
+	st, err := kt.VerifC03RunStages()
+	out := &VerifC03Stages{Acc: st.Acc, Pre: st.Pre, Post: st.Post, Rules: verifC03Rules(st.Rules), Stage: st.Stage}
+	return out, err
+}
